@@ -28,11 +28,41 @@ def _moveaxis(a, source, destination):
     return jnp.moveaxis(a, source, destination)
 
 
+class _StaticAxes:
+    """Hashable stand-in for an axes specification (e.g. a dict-valued pytree)
+    such that it can be a static argument of `jax.jit`."""
+
+    def __init__(self, axes):
+        from jax.tree_util import tree_flatten
+
+        leaves, self.treedef = tree_flatten(axes, is_leaf=_int_or_none)
+        self.leaves = tuple(leaves)
+
+    def __hash__(self):
+        return hash((self.leaves, self.treedef))
+
+    def __eq__(self, other):
+        return (
+            isinstance(other, _StaticAxes)
+            and self.leaves == other.leaves
+            and self.treedef == other.treedef
+        )
+
+    def unwrap(self):
+        from jax.tree_util import tree_unflatten
+
+        return tree_unflatten(self.treedef, self.leaves)
+
+
 def _generic_smap(fun, in_axes, out_axes, unroll, *x, _scan=lax.scan, **k):
     from jax.tree_util import tree_flatten, tree_map, tree_unflatten
 
     if k:
         raise TypeError("keyword arguments are not allowed in map")
+    if isinstance(in_axes, _StaticAxes):
+        in_axes = in_axes.unwrap()
+    if isinstance(out_axes, _StaticAxes):
+        out_axes = out_axes.unwrap()
 
     if isinstance(in_axes, int):
         in_axes = tree_map(lambda _: in_axes, x)
@@ -120,7 +150,7 @@ def smap(fun, in_axes=0, out_axes=0, *, unroll=1):
     For the semantics of `in_axes` and `out_axes` see `jax.vmap`. For the
     semantics of `unroll` see `jax.lax.scan`.
     """
-    return partial(_smap, fun, in_axes, out_axes, unroll)
+    return partial(_smap, fun, _StaticAxes(in_axes), _StaticAxes(out_axes), unroll)
 
 
 @partial(jax.jit, donate_argnames=("x",))
